@@ -62,3 +62,5 @@ for i in sorted(os.listdir(outdir)):
         "check_exit": rc_chk, "detected": detected, "violations": detail}
     json.dump(meta, open(os.path.join(sd, "meta.json"), "w"), indent=1)
 sh("rm -rf /verif/replays")
+# evidence written while a seeded patch was applied must never be committed
+sh("git -C /verif checkout -- evidence")
